@@ -328,6 +328,9 @@ let handle (fields : string list) : string =
        let showc = function None -> "none" | Some m -> oq m.x_abs ^ ";" ^ oq m.x_rel ^ ";" ^ oq m.x_sys in
        Printf.sprintf "OK gen=%s comps=%s mols=%s" (if s.sy_generable then "T" else "F") (String.concat "," (List.map showc s.sy_comps))
          (String.concat "/" (List.map (fun m -> hex (show_mol m)) s.sy_mols)))
+  | [ "kdescr"; raw; pre ] -> hex (implode (check_descr (explode (unhex raw)) (explode (unhex pre))))
+  | [ "ktoken"; raw; valid ] -> hex (implode (check_token (List.map (fun v -> explode (unhex v)) (split_nonempty ',' valid)) (explode (unhex raw))))
+  | [ "kmol"; raw; valid ] -> hex (implode (check_mol (List.map (fun v -> explode (unhex v)) (split_nonempty ',' valid)) (explode (unhex raw))))
   | [ "token"; raw; off; valid ] ->
     (* valid: comma separated hex of the bracket atoms RDKit accepts *)
     let vs = List.map unhex (split_nonempty ',' valid) in
